@@ -7,6 +7,7 @@ pub mod interp;
 pub mod serde_drv;
 pub mod vals;
 pub mod views;
+pub mod watchdog;
 
 #[global_allocator]
 static GLOBAL: alloc::Rec = alloc::Rec;
@@ -31,6 +32,7 @@ fn main() {
             eprintln!("{}", msg);
         }
     }));
+    watchdog::start();
     // debug-build frames of the generated dispatch functions are large: run on a big stack
     let h = std::thread::Builder::new().stack_size(2usize << 30).spawn(move || dispatch(args)).expect("HARNESS: spawn");
     if h.join().is_err() {
@@ -64,6 +66,7 @@ fn run_each(scn: &str, out: &str, from: usize, count: usize, f: fn(&J)) {
         }
         let j: J = serde_json::from_str(&line).expect("HARNESS: scenario json");
         eprintln!("@case {}", i);
+        watchdog::case_start();
         f(&j);
     }
     events::flush();
@@ -82,6 +85,7 @@ fn run_script(scn: &str, out: &str, from: usize, count: usize) {
         let j: J = serde_json::from_str(&line).expect("HARNESS: scenario json");
         // progress marker for the runner: which scenario is running (survives an abort)
         eprintln!("@case {}", i);
+        watchdog::case_start();
         match j.get("ety").and_then(|x| x.as_str()).unwrap_or("tk") {
             "plain" => {
                 pl = interp::Interp::new();
